@@ -129,13 +129,40 @@ pub fn run(seed: u64, n: usize, out: &mut Out) {
         if r.pct(25) {
             lines.push(gen_other(&mut r));
         }
+        // rules without a pattern that list several initiators are stored once per initiator: each must reach them,
+        // also when the rule arrives through `add_filter` after the buckets exist
+        let mut aimed_src: Vec<String> = vec![];
+        if r.pct(30) {
+            let (d1, d2) = (r.pick(HOSTS).to_string(), r.pick(HOSTS).to_string());
+            if d1 != d2 {
+                lines.push(format!("$removeparam={},domain={}", r.pick(&["aa", "utm"]), d1));
+                lines.push(format!("$removeparam={},domain={}", r.pick(&["bb", "fbclid"]), d2));
+                lines.push(format!("$removeparam={},domain={}|{}", r.pick(&["a", "b", "k"]), d1, d2));
+                aimed_src = vec![format!("https://{}/", d1), format!("https://{}/", d2)];
+            }
+        }
         crate::c11::emit_plines(out, &lines);
         let optimize = r.pct(50);
-        let engine = Engine::from_rules_parametrised(&lines, Default::default(), true, optimize);
+        let engine = if r.pct(35) && lines.len() > 1 {
+            // the same list, the last rules added one by one
+            let cut = 1 + r.below(lines.len() - 1);
+            let cut = if aimed_src.is_empty() { cut } else { lines.len() - 1 };
+            let mut e = Engine::from_rules_parametrised(&lines[..cut], Default::default(), true, optimize);
+            for l in &lines[cut..] {
+                if let Some(f) = parse_net(l, true) {
+                    let _ = e.verif_blocker_mut().add_filter(f);
+                }
+            }
+            out.bump("c14_incremental_engines");
+            e
+        } else {
+            Engine::from_rules_parametrised(&lines, Default::default(), true, optimize)
+        };
         let mut rules = parse_all(&lines);
         for _ in 0..4 {
             let url = gen_url(&mut r);
             let src = match r.below(4) {
+                _ if !aimed_src.is_empty() => aimed_src.pop().unwrap(),
                 0 => String::new(),
                 1 => url.clone(),
                 _ => format!("https://{}/", r.pick(HOSTS)),
